@@ -178,6 +178,12 @@ func (h *harness) call(f func() error) (err error, panicked bool) {
 // checkC01 is evaluated after every call.
 func (h *harness) checkC01() {
 	cur := h.m.CurrentTX()
+	if cur.State != nil && h.curForced && !bytes.Equal(gen.EncodeState(cur.State), h.cur) {
+		// the only current states without every signature are those adopted from
+		// an on-chain progression event: exactly the event's state
+		h.fail("C01.unsigned-current-not-from-event", "after a progression event the current state v%d is not the state the event carried", cur.Version)
+		return
+	}
 	if cur.State != nil && !h.curForced {
 		enc := gen.EncodeState(cur.State)
 		if len(cur.Sigs) != h.n {
@@ -769,7 +775,8 @@ func (h *harness) doOp(st *kernel.Step) {
 				h.setStagedModel(s, channel.Progressing)
 			}
 		} else {
-			ev := channel.NewProgressedEvent(h.params.ID(), &channel.ElapsedTimeout{}, s, 0)
+			// (the event names the participant who progressed: any of them)
+			ev := channel.NewProgressedEvent(h.params.ID(), &channel.ElapsedTimeout{}, s, channel.Index(kernel.Derive(uint64(st.Int("r")), "event-idx")%uint64(h.n)))
 			err, pan := h.call(func() error { return h.m.SetProgressed(ev) })
 			h.logf("set-progressed v=%d -> %v", s.Version, err)
 			if h.outcome(op, true, err, pan, before) {
